@@ -8,6 +8,8 @@
 //! through a recursive function).  impl reply: `loop=<0|1>` | `panic` | `err`.
 //! oracle reply: `ref=<0|1> lo=<0|1>` from an independent bit-level reference written here
 //! (`ref`: recursive-function calls depend on their arguments, `lo`: they are opaque).
+//! Streams: model language (random blocks), 1/3 with a retained-state `always_comb` (see
+//! `gen_retained_blocks`), 1/8 opaque constructs, 1/97 malformed request lines.
 use crate::rng::Rng;
 use crate::util::{Log, Opts};
 use std::collections::{BTreeMap, BTreeSet, HashMap};
@@ -693,6 +695,154 @@ fn gen_blocks(rng: &mut Rng, g: &GenCtx, n: u64, log: &mut Log) -> Vec<Stmt> {
         .collect()
 }
 
+/// Ranges of a variable that overlap each other often.
+fn focus_range(rng: &mut Rng, w: usize) -> (usize, usize) {
+    match rng.below(6) {
+        0 | 1 => (w - 1, 0),
+        2 => ((w / 2).max(1) - 1, 0),
+        3 => (w - 1, w / 2),
+        4 => (0, 0),
+        _ => (w - 1, w - 1),
+    }
+}
+
+fn focus_acc(rng: &mut Rng, g: &GenCtx, var: usize) -> Acc {
+    let (msb, lsb) = focus_range(rng, g.widths[var]);
+    Acc { var, msb, lsb }
+}
+
+struct Focus {
+    y: usize,
+    t: Option<usize>,
+    inputs: Vec<usize>,
+}
+
+/// One assignment to the focus variable `y`: reading `y` itself (self-read), the helper `t`, or inputs.
+fn focus_leaf(rng: &mut Rng, g: &GenCtx, f: &Focus, log: &mut Log) -> Vec<Stmt> {
+    let k = rng.below(20);
+    focus_leaf_kind(rng, g, f, k, log)
+}
+
+fn focus_leaf_kind(rng: &mut Rng, g: &GenCtx, f: &Focus, kind: u64, log: &mut Log) -> Vec<Stmt> {
+    let d = focus_acc(rng, g, f.y);
+    let mut rs = vec![];
+    match (kind, f.t) {
+        (0..=6, _) => {
+            log.count("retained.leaf.self_read");
+            rs.push(focus_acc(rng, g, f.y));
+        }
+        (7..=9, Some(t)) => {
+            log.count("retained.leaf.read_t");
+            rs.push(focus_acc(rng, g, t));
+        }
+        (10..=12, Some(t)) => {
+            // read after write of the same variable inside the branch: t = f(..); y = f(t)
+            log.count("retained.leaf.write_then_read");
+            let mut rt = vec![];
+            if rng.chance(1, 3) {
+                rt.push(focus_acc(rng, g, f.y));
+            }
+            if !f.inputs.is_empty() {
+                rt.push(gen_acc(rng, g, &f.inputs));
+            }
+            let dt = focus_acc(rng, g, t);
+            let rd = focus_acc(rng, g, t);
+            return vec![Stmt::Assign(dt, rt), Stmt::Assign(d, vec![rd])];
+        }
+        _ => log.count("retained.leaf.other"),
+    }
+    if !f.inputs.is_empty() && rng.chance(1, 2) {
+        rs.push(gen_acc(rng, g, &f.inputs));
+    }
+    vec![Stmt::Assign(d, rs)]
+}
+
+/// `if c1 { y = f(y, …) } else { if c2 { y = … } }` and its mirror images: one side reads the entry
+/// value of `y` through a definition, the other side retains it on some path (phi of phi).
+fn focus_partial(rng: &mut Rng, g: &GenCtx, f: &Focus, log: &mut Log) -> Stmt {
+    log.count("retained.partial_shape");
+    let cond = |rng: &mut Rng| if f.inputs.is_empty() { focus_acc(rng, g, f.y) } else { gen_acc(rng, g, &f.inputs) };
+    let selfread = Stmt::Seq(focus_leaf_kind(rng, g, f, 0, log));
+    let inner_leaf = Stmt::Seq(focus_leaf_kind(rng, g, f, 19, log));
+    let other = if rng.chance(1, 4) { focus_tree(rng, g, f, 2, log) } else { Stmt::Seq(vec![]) };
+    let c2 = cond(rng);
+    let inner = if rng.chance(1, 2) {
+        Stmt::If(vec![c2], Box::new(inner_leaf), Box::new(other))
+    } else {
+        Stmt::If(vec![c2], Box::new(other), Box::new(inner_leaf))
+    };
+    let c1 = cond(rng);
+    if rng.chance(1, 2) {
+        Stmt::If(vec![c1], Box::new(selfread), Box::new(inner))
+    } else {
+        Stmt::If(vec![c1], Box::new(inner), Box::new(selfread))
+    }
+}
+
+fn focus_tree(rng: &mut Rng, g: &GenCtx, f: &Focus, depth: usize, log: &mut Log) -> Stmt {
+    if depth == 0 && rng.chance(1, 3) {
+        return focus_partial(rng, g, f, log);
+    }
+    if depth >= 3 || rng.chance(4, 10) {
+        let mut ss = focus_leaf(rng, g, f, log);
+        if rng.chance(1, 4) {
+            ss.extend(focus_leaf(rng, g, f, log));
+        }
+        return Stmt::Seq(ss);
+    }
+    let cond = if f.inputs.is_empty() || rng.chance(1, 6) {
+        log.count("retained.cond.reads_y");
+        focus_acc(rng, g, f.y)
+    } else {
+        gen_acc(rng, g, &f.inputs)
+    };
+    let mut a = if rng.chance(3, 4) { focus_tree(rng, g, f, depth + 1, log) } else { Stmt::Seq(vec![]) };
+    let b = if rng.chance(3, 4) { focus_tree(rng, g, f, depth + 1, log) } else { Stmt::Seq(vec![]) };
+    if matches!((&a, &b), (Stmt::Seq(x), Stmt::Seq(y)) if x.is_empty() && y.is_empty()) {
+        a = Stmt::Seq(focus_leaf(rng, g, f, log));
+    }
+    log.count(&format!(
+        "retained.if.depth{depth}.{}{}",
+        if matches!(&a, Stmt::Seq(x) if x.is_empty()) { "E" } else if matches!(&a, Stmt::If(..)) { "I" } else { "S" },
+        if matches!(&b, Stmt::Seq(x) if x.is_empty()) { "E" } else if matches!(&b, Stmt::If(..)) { "I" } else { "S" }
+    ));
+    Stmt::If(vec![cond], Box::new(a), Box::new(b))
+}
+
+/// Retained-state stream: one `always_comb` that assigns a variable `y` on some paths only (nested
+/// ifs with and without else, in either branch), with self-reads `y = f(y, …)`, reads after writes
+/// inside branches and conditions that read `y`; optionally a cycle closed through `assign t = f(y)`.
+fn gen_retained_blocks(rng: &mut Rng, g: &GenCtx, log: &mut Log) -> Vec<Stmt> {
+    let cands: Vec<usize> = g.writable.iter().copied().filter(|v| g.readable.contains(v)).collect();
+    if cands.is_empty() {
+        return vec![];
+    }
+    let y = *rng.pick(&cands);
+    let others: Vec<usize> = cands.iter().copied().filter(|v| *v != y).collect();
+    let t = if others.is_empty() { None } else { Some(*rng.pick(&others)) };
+    let inputs: Vec<usize> = g.readable.iter().copied().filter(|v| g.rank[*v] == 0).collect();
+    let f = Focus { y, t, inputs };
+    log.count("retained.block");
+    let mut ss = vec![];
+    if rng.chance(1, 4) {
+        ss.extend(focus_leaf(rng, g, &f, log));
+    }
+    ss.push(focus_tree(rng, g, &f, 0, log));
+    if rng.chance(1, 4) {
+        ss.extend(focus_leaf(rng, g, &f, log));
+    }
+    let mut out = vec![Stmt::Seq(ss)];
+    if let Some(t) = f.t {
+        if rng.chance(1, 2) {
+            log.count("retained.assign_t_from_y");
+            let d = focus_acc(rng, g, t);
+            let r = focus_acc(rng, g, f.y);
+            out.push(Stmt::Assign(d, vec![r]));
+        }
+    }
+    out
+}
+
 /// A child that copies port slices (the shape behind the port-level feedthrough false positives).
 fn gen_slicer(rng: &mut Rng, w: usize) -> Module {
     let mut blocks = vec![];
@@ -710,8 +860,8 @@ fn gen_slicer(rng: &mut Rng, w: usize) -> Module {
     Module { inputs: vec![0], outputs: vec![1], inouts: vec![], widths: vec![w, w], blocks }
 }
 
-fn gen_child(rng: &mut Rng, opaque: bool, log: &mut Log) -> Module {
-    if !opaque && rng.chance(1, 3) {
+fn gen_child(rng: &mut Rng, opaque: bool, retained: bool, log: &mut Log) -> Module {
+    if !opaque && !retained && rng.chance(1, 3) {
         log.count("child.slicer");
         let w = *rng.pick(&[2usize, 4, 8]);
         return gen_slicer(rng, w);
@@ -741,14 +891,22 @@ fn gen_child(rng: &mut Rng, opaque: bool, log: &mut Log) -> Module {
     let rank: Vec<usize> = (0..widths.len()).map(|v| if inputs.contains(&v) { 0 } else if outputs.contains(&v) { 100 + v } else { 1 + v }).collect();
     let forward = *rng.pick(&[60u64, 85, 95]);
     let g = GenCtx { widths: widths.clone(), readable, writable, rank, forward, rec: opaque && rng.chance(1, 3) };
-    let nb = rng.range(1, 3);
-    let blocks = gen_blocks(rng, &g, nb, log);
+    let blocks = if retained {
+        let mut b = gen_retained_blocks(rng, &g, log);
+        let nb = rng.below(2);
+        b.extend(gen_blocks(rng, &g, nb, log));
+        b
+    } else {
+        let nb = rng.range(1, 3);
+        gen_blocks(rng, &g, nb, log)
+    };
     Module { inputs, outputs, inouts, widths, blocks }
 }
 
-fn gen_design(rng: &mut Rng, opaque: bool, log: &mut Log) -> Design {
-    let nchild = if opaque { rng.range(1, 2) } else { *rng.pick(&[0u64, 0, 1, 1, 1, 2]) } as usize;
-    let children: Vec<Module> = (0..nchild).map(|_| gen_child(rng, opaque, log)).collect();
+fn gen_design(rng: &mut Rng, opaque: bool, retained: bool, log: &mut Log) -> Design {
+    let pure = retained && !opaque && rng.chance(1, 2);
+    let nchild = if pure { 0 } else if opaque { rng.range(1, 2) } else { *rng.pick(&[0u64, 0, 1, 1, 1, 2]) } as usize;
+    let children: Vec<Module> = (0..nchild).map(|_| { let r = retained && rng.chance(1, 3); gen_child(rng, opaque, r, log) }).collect();
     let nvar = rng.range(3, 5) as usize;
     // top: var 0 = input port, var 1 = output port, the rest internal
     let mut widths = vec![8usize; nvar + 2];
@@ -801,10 +959,20 @@ fn gen_design(rng: &mut Rng, opaque: bool, log: &mut Log) -> Design {
     let readable: Vec<usize> = (0..widths.len()).filter(|v| *v != 1).collect();
     let writable: Vec<usize> = (1..widths.len()).collect();
     let rank: Vec<usize> = (0..widths.len()).map(|v| if v == 0 { 0 } else if v == 1 { 1000 } else { v }).collect();
-    let forward = *rng.pick(&[60u64, 85, 95, 95]);
+    let forward = if retained { 95 } else { *rng.pick(&[60u64, 85, 95, 95]) };
     let g = GenCtx { widths: widths.clone(), readable, writable, rank, forward, rec: opaque && rng.chance(1, 2) };
-    let nb = rng.range(1, 5);
-    let blocks = gen_blocks(rng, &g, nb, log);
+    let blocks = if retained {
+        let mut b = gen_retained_blocks(rng, &g, log);
+        let nb = if pure { 0 } else { rng.below(3) };
+        b.extend(gen_blocks(rng, &g, nb, log));
+        if rng.chance(1, 2) {
+            b.reverse();
+        }
+        b
+    } else {
+        let nb = rng.range(1, 5);
+        gen_blocks(rng, &g, nb, log)
+    };
     Design { children, top: Module { inputs: vec![0], outputs: vec![1], inouts: vec![], widths, blocks }, insts }
 }
 
@@ -876,7 +1044,11 @@ pub fn main(opts: &Opts) -> i32 {
     let n = opts.num("n", 800);
     for k in 0..n {
         let opaque = k % 8 == 7;
-        let d = gen_design(&mut rng, opaque, &mut log);
+        let retained = k % 3 == 1;
+        if retained {
+            log.count("stream.retained");
+        }
+        let d = gen_design(&mut rng, opaque, retained, &mut log);
         debug_assert!(well_formed(&d));
         if k % 97 == 96 {
             // malformed stream: both sides must reject the line
